@@ -16,10 +16,16 @@ type vpDownstream struct {
 	wrote   bool
 	body    []byte
 	flushes int
+	informational []int
 }
 
 func (d *vpDownstream) Header() http.Header { return d.hdr }
 func (d *vpDownstream) WriteHeader(code int) {
+	if code >= 100 && code < 200 && code != 101 {
+		// an informational response: net/http sends it at once and keeps waiting for the final status
+		d.informational = append(d.informational, code)
+		return
+	}
 	if !d.wrote {
 		d.status = code
 		d.wrote = true
@@ -114,13 +120,25 @@ func VpC18Middleware() {
 	// handler behaviour
 	nops := vp.Param("OPS", 2)
 	var ops [4]int
+	var codes [4]int
 	var chunks [4][]byte
 	for i := 0; i < nops; i++ {
-		ops[i] = vp.Choice("op", 5) // 0 nothing, 1 WriteHeader(201), 2 Write(chunk), 3 Flush, 4 Header().Set("X-H", v)
+		ops[i] = vp.Choice("op", 5) // 0 nothing, 1 WriteHeader(code), 2 Write(chunk), 3 Flush, 4 Header().Set("X-H", v)
+		if ops[i] == 1 {
+			codes[i] = []int{201, 204, 304, 103}[vp.Choice("code", vp.Param("CODES", 4))]
+		}
 		if ops[i] == 2 {
 			chunks[i] = vp.Bytes("chunk", 1+vp.Choice("chunklen", 2))
 			for j := range chunks[i] {
 				vp.Assume(chunks[i][j] == 'y' || chunks[i][j] == 'c' || chunks[i][j] == 'd')
+			}
+		}
+	}
+	for i := 0; i < nops; i++ {
+		if ops[i] == 1 && (codes[i] == 204 || codes[i] == 304) {
+			// a response that cannot carry a body: handlers that write one get an error from net/http
+			for j := 0; j < nops; j++ {
+				vp.Assume(ops[j] != 2)
 			}
 		}
 	}
@@ -132,6 +150,7 @@ func VpC18Middleware() {
 	statusSet := false
 	var wantBody []byte
 	headerSet := false
+	wantInfo := 0
 	handler := http.HandlerFunc(func(w http.ResponseWriter, r *http.Request) {
 		invoked = true
 		if r.Body != nil {
@@ -141,10 +160,16 @@ func VpC18Middleware() {
 		for i := 0; i < nops; i++ {
 			switch ops[i] {
 			case 1:
-				if !statusSet {
-					wantStatus, statusSet = 201, true
+				if codes[i] == 103 {
+					// informational: the final status is still to come (after it, the call is
+					// superfluous and net/http ignores it)
+					if !statusSet {
+						wantInfo++
+					}
+				} else if !statusSet {
+					wantStatus, statusSet = codes[i], true
 				}
-				w.WriteHeader(201)
+				w.WriteHeader(codes[i])
 			case 2:
 				if !statusSet {
 					statusSet = true
@@ -168,6 +193,9 @@ func VpC18Middleware() {
 	})
 	down := &vpDownstream{hdr: http.Header{}}
 	WrapHandler(waf, handler).ServeHTTP(down, req)
+	if !down.wrote {
+		down.WriteHeader(200) // net/http sends 200 when the handler returns without a final status
+	}
 
 	// ---- reference ------------------------------------------------------------------------
 	inspected := reqBody
@@ -207,6 +235,7 @@ func VpC18Middleware() {
 		vp.Assert(invoked, "handler not invoked although nothing interrupted")
 		vp.Assert(string(seenBody) == string(reqBody), "handler did not read exactly the client's request body")
 		vp.Assert(down.status == wantStatus, "client did not receive the handler's status")
+		vp.Assert(len(down.informational) == wantInfo, "client did not receive the handler's informational responses")
 		vp.Assert(string(down.body) == string(wantBody), "client did not receive exactly the handler's body")
 		if headerSet {
 			vp.Assert(len(down.hdr["X-H"]) == 1 && down.hdr["X-H"][0] == string([]byte{xh}), "client did not receive the handler's header")
